@@ -17,7 +17,7 @@ BUILD_ROOT = os.path.join(VERIF, ".build")
 
 VARIANTS = {
     "plain": ["-O2", "-DNDEBUG"],
-    "asan": ["-O1", "-g", "-fsanitize=address,undefined", "-fno-sanitize-recover=undefined", "-fno-omit-frame-pointer", "-DNDEBUG"],
+    "asan": ["-O1", "-g", "-fsanitize=address,bounds", "-fno-sanitize-recover=bounds", "-fno-omit-frame-pointer", "-DNDEBUG"],
     "tsan": ["-O1", "-g", "-fsanitize=thread", "-DNDEBUG"],
 }
 COMMON = ["-fPIC", "-std=gnu11", "-DSPQLIOS_VERIF", "-w"]
